@@ -32,6 +32,21 @@ pub struct Violation {
     /// finding key: identifies the specific input / call site / history class that fails
     pub key: String,
     pub detail: String,
+    /// a concrete single-case plan that reproduces this violation (used instead of the run's plan
+    /// when the run enumerated many cases, e.g. a fault sweep)
+    #[serde(default)]
+    pub plan_override: Option<Value>,
+}
+
+impl Violation {
+    pub fn new(invariant: &str, key: impl Into<String>, detail: impl Into<String>) -> Violation {
+        Violation {
+            invariant: invariant.to_string(),
+            key: key.into(),
+            detail: detail.into(),
+            plan_override: None,
+        }
+    }
 }
 
 #[derive(Serialize, Deserialize, Clone, Debug, Default)]
@@ -397,6 +412,7 @@ pub fn check_main(e: &dyn Engine, tier: Tier, seed: u64, workers: usize, runs_ov
                             invariant: "T4".into(),
                             key: "T4:hang".into(),
                             detail: "call did not return within the watchdog, confirmed on replay in a fresh process".into(),
+                            plan_override: None,
                         },
                         plan,
                     ));
@@ -414,7 +430,8 @@ pub fn check_main(e: &dyn Engine, tier: Tier, seed: u64, workers: usize, runs_ov
                         harness_errors.push(format!("worker died at run {run} ({msg}) but the run alone passes"));
                     } else {
                         for v in rep.violations {
-                            found.push((run, v, plan.clone()));
+                            let p2 = v.plan_override.clone().unwrap_or_else(|| plan.clone());
+                            found.push((run, v, p2));
                         }
                     }
                 }
@@ -425,6 +442,7 @@ pub fn check_main(e: &dyn Engine, tier: Tier, seed: u64, workers: usize, runs_ov
                             invariant: "T1".into(),
                             key: "T1:abort".into(),
                             detail: format!("process died executing this run, also alone in a fresh process: {m}; {msg}"),
+                            plan_override: None,
                         },
                         plan,
                     ));
@@ -458,7 +476,8 @@ pub fn check_main(e: &dyn Engine, tier: Tier, seed: u64, workers: usize, runs_ov
                 }
             }
             for v in rep.violations {
-                found.push((l.run, v, l.plan.clone().unwrap_or(Value::Null)));
+                let plan = v.plan_override.clone().or_else(|| l.plan.clone()).unwrap_or(Value::Null);
+                found.push((l.run, v, plan));
             }
         }
     }
